@@ -31,6 +31,103 @@ def _events(j, o):
     return [{"a": "Units", "units": us, "full": o["text"]["obs"], "joinok": o["joinok"]}]
 
 
+# ----------------------------------------------------------------------------- heading sections: algorithm model
+def _sections_job(cases):
+    """cases: [(flavour, base, paras)] -> observed units of OdtContent / DocxContent objects built from the paragraph list."""
+    from ..repo import activate
+    activate()
+    import warnings
+    warnings.simplefilter("ignore")
+    from sharepoint2text.parsing.extractors import data_types as dt
+    from ..docmodel import TOKEN_RE, word
+
+    def ident(s_):
+        m = TOKEN_RE.fullmatch(s_.strip())
+        return int(m.group(1) or m.group(2) or m.group(3)) if m else 999
+    out = []
+    for flavour, base, paras in cases:
+        texts = [(word(p[2]) if p[2] else "") if p[0] == "h" else (word(p[1]) if p[1] else "") for p in paras]
+        body = "\n".join(t for p, t in zip(paras, texts) if p[0] == "p" and t)
+        title = word(base[0]) if base else ""
+        try:
+            if flavour == "odt":
+                obj = dt.OdtContent(metadata=dt.OpenDocumentMetadata(title=title), full_text=body,
+                                    paragraphs=[dt.OdtParagraph(text=t, outline_level=p[1] if p[0] == "h" else None)
+                                                for p, t in zip(paras, texts)])
+            else:
+                obj = dt.DocxContent(metadata=dt.DocxMetadata(title=title), full_text=body,
+                                     paragraphs=[dt.DocxParagraph(text=t, style=f"Heading {p[1]}" if p[0] == "h" else "Normal")
+                                                 for p, t in zip(paras, texts)])
+            units = []
+            for u in obj.iterate_units():
+                txt = u.get_text()
+                units.append({"n": u.unit_number, "level": u.heading_level or 0, "path": [ident(x) for x in u.heading_path],
+                              "lines": [ident(x) for x in txt.split("\n") if x.strip()]})
+            out.append({"units": units})
+        except Exception as e:
+            out.append({"exc": f"{type(e).__name__}: {e}"[:200]})
+    return out
+
+
+def sections_model(ctx):
+    """Sections.tla: theorems on all paragraph lists up to MaxLen, sensitivity runs, and the binding of
+    OdtContent.iterate_units / DocxContent.iterate_units to the machine's function."""
+    from concurrent.futures import ProcessPoolExecutor
+    from ..docrun import from_tla
+    from ..tlaval import iter_dump, to_tla
+    from ..tlc import MachineryError, run_tlc
+    n = 5 if ctx.thorough else 4
+    invs = "".join(f"INVARIANT {i}\n" for i in ("Inv_StepAgreesWithFunction", "Inv_EveryParagraphOnce", "Inv_PathIsOpenChain",
+                                                  "Inv_Numbered", "Inv_HeadingTextKept"))
+    cfg = f"SPECIFICATION Spec\nCONSTANTS WalkDev = {{}}\n MaxLen = {n}\n{invs}PROPERTY Prop_Terminates\n"
+    r = run_tlc("Sections", cfg, scratch=ctx.scratch, expect_fail=True, heap="10g", workers=16, timeout=3000)
+    ctx.ev.tlc(f"Sections MaxLen={n}: every paragraph in exactly one unit, path = chain of open headings, heading text kept", r)
+    if r.violated:
+        ctx.v.violation(what=f"Sections.tla: the strict section model violates {r.violated}", observed=r.output[-1500:])
+    for dv in ("Docx!PreambleLost", "Odt!EmptyHeadingDropped"):
+        rs = run_tlc("Sections", cfg.replace("WalkDev = {}", f'WalkDev = {{"{dv}"}}').replace(f"MaxLen = {n}", "MaxLen = 3"),
+                     scratch=ctx.scratch, expect_fail=True, heap="8g")
+        ctx.ev.tlc(f"Sections sensitivity: as-built step {dv} must violate a theorem", rs, note="expected violation")
+        if not rs.violated:
+            raise MachineryError(f"Sections sensitivity run for {dv} did not fail")
+    dump = ctx.scratch / "secgen.dump"
+    rg = run_tlc("Sections", f"SPECIFICATION GenSpec\nCONSTANTS WalkDev = {{}}\n MaxLen = 4\n", scratch=ctx.scratch, dump=dump, heap="8g")
+    ctx.ev.tlc("Sections GenSpec MaxLen=4: paragraph lists x flavour x title", rg)
+    cases = sorted(((str(st["flavour"]), from_tla(st["base"]), from_tla(st["paras"])) for st in iter_dump(dump)),
+                   key=lambda c: json.dumps(c))
+    if len(cases) != rg.distinct:
+        raise MachineryError(f"Sections dump {len(cases)} != {rg.distinct}")
+    if not ctx.thorough:
+        rng = random.Random(ctx.seed)
+        small = [c for c in cases if len(c[2]) <= 3]
+        rest = [c for c in cases if len(c[2]) > 3]
+        rng.shuffle(rest)
+        cases = small + rest[:12000]
+    chunks = [cases[k:k + 1000] for k in range(0, len(cases), 1000)]
+    with ProcessPoolExecutor(16) as ex:
+        obs = list(ex.map(_sections_job, chunks))
+    traces = []
+    for ch, o in zip(chunks, obs):
+        for (flavour, base, paras), ob in zip(ch, o):
+            if "exc" in ob:
+                ctx.v.violation(what=f"{flavour} iterate_units() raised on a paragraph list {paras}: {ob['exc']}",
+                                case={"flavour": flavour, "paras": paras}, where="data_types.py iterate_units")
+                continue
+            traces.append({"id": f"sections:{len(traces)}", "hdr": {"fmt": flavour, "doc": {"paras": paras, "base": base}},
+                           "raw": json.dumps(ob["units"])[:300],
+                           "ev": [{"a": "Sections", "flavour": flavour, "base": base, "paras": paras, "units": ob["units"]}]})
+
+    def cfgfn(dev):
+        return f"SPECIFICATION TraceSpec\nCONSTANTS WalkDev = {to_tla(set(dev))}\nCONSTRAINT TraceAccept\n"
+    validate_with_findings(ctx, "SectionsTrace", traces, {"KF-C03-08": "Docx!PreambleLost", "KF-C03-09": "Odt!EmptyHeadingDropped"},
+                           lambda t, e: f"{e['flavour']} iterate_units() differs from the section model Sections.tla: paragraphs "
+                                        f"{json.dumps(e['paras'])[:200]} title {e['base']} -> units {json.dumps(e['units'])[:300]}",
+                           lambda t: "data_types.py: OdtContent.iterate_units / DocxContent.iterate_units", cfg=cfgfn)
+    ctx.ev.replayed(len(traces))
+    for t in traces[:: max(1, len(traces) // 300)]:
+        ctx.ev.nontrivial(("sections", t["raw"]))
+
+
 def run(ctx):
     ev = ctx.ev
     rng = random.Random(ctx.seed)
@@ -62,6 +159,7 @@ def run(ctx):
     validate_with_findings(ctx, "DocTrace", traces, FINDING_DEV, describe,
                            lambda t: f"data_types.py iterate_units / get_full_text of the {t['hdr']['fmt']} result type")
     ev.replayed(len(traces))
+    sections_model(ctx)
     ev.set(rule="same TLC-enumerated document suite as C02 (flow documents incl. headings; decks / workbooks / paged "
                 "documents of 1..3 units incl. empty units) x formats; non-trivial = multi-unit or non-empty unit text",
            exhaustive=bool(ctx.thorough), constants={"flow_formats": FLOW_FORMATS, "multi_unit_formats": MULTI,
